@@ -923,7 +923,15 @@ class TFLiteSupportedOperators:
         hi = 0 if len(shape) < 4 else 1
         h, w = shape[hi : hi + 2]
         max_width = cls.mean_reduced_axis_max_size
-        return w <= max_width, f"Width is {w}"
+
+        if op.inputs[1].shape == []:
+            axis = [int(op.inputs[1].values)]
+        else:
+            axis = list(op.inputs[1].values)
+        axis = [ax + len(shape) if ax < 0 else ax for ax in axis]
+
+        width_reduced = (hi + 1) in axis
+        return not width_reduced or w <= max_width, f"Width is {w}, axis is {axis}"
 
     @classmethod
     @docstring_format_args([mean_reduced_axis_max_size])
